@@ -261,13 +261,28 @@ func (l *lexer) consume(end int) (b6.Expression, string) {
 }
 
 func (l *lexer) lexStringLiteral(yylval *yySymType) int {
+	// String tokens use Go's escaping, since that's what UnparseString
+	// produces: a backslash escapes the following character.
 	i := l.Index + 1
+	escaped := false
 	for i < len(l.Expression) {
 		r, w := utf8.DecodeRuneInString(l.Expression[i:])
 		i += w
-		if r == '"' {
+		if r == '\\' && i < len(l.Expression) {
+			_, w = utf8.DecodeRuneInString(l.Expression[i:])
+			i += w
+			escaped = true
+		} else if r == '"' {
 			e, token := l.consume(i)
-			e.AnyExpression = b6.NewStringExpression(token[1 : len(token)-1]).AnyExpression
+			s := token[1 : len(token)-1]
+			if escaped {
+				var err error
+				if s, err = strconv.Unquote(token); err != nil {
+					l.Err = fmt.Errorf("bad escape in string constant %s", token)
+					return eof
+				}
+			}
+			e.AnyExpression = b6.NewStringExpression(s).AnyExpression
 			yylval.e = e
 			return STRING
 		}
